@@ -3,14 +3,18 @@
    two starters of the same DAG file, the process may be killed anywhere.
    FixStatus = TRUE models Agent.Status after daaac56 (a run in progress is never recorded as finished);
    the latest-status query follows jsondb after 417efc6 / 62a24ae (an empty newest file is skipped).
-   `windowRace` records that a starter probed while another one was between its own probe and its bind
-   (F-16a, open): mutual exclusion is proved for behaviours without that race, the race is a lead.
-   Action order taken from the recorded system calls of a real `blackdagger start`:
-   connect(sock) · mkdirat/openat(.dat) · write(init) · unlinkat(sock) · bind(sock) · … ·
-   write(status)* · write(final) · unlinkat(sock) [listener close] · compaction · exit *)
+   ExclusiveBind = TRUE models the code after the F-16a fix: the socket is bound BEFORE anything is recorded, and
+   [connect-probe, unlink stale file, bind] as well as the closing unlink happen under a file lock (flock on
+   <socket>.lock, released by the kernel when the process dies); a bind that finds a live listener fails and the start
+   is refused.  With FALSE the model is the old order (probe, open history, write, unlink, bind) and
+   `windowRace` records that a starter probed while another one was between its own probe and its bind (F-16a):
+   mutual exclusion then holds only for behaviours without that race.
+   Action order taken from the recorded system calls of a real `blackdagger start` (new order):
+   connect(sock) [probe] · flock · connect(sock) · unlinkat(sock) · bind(sock) · flock(un) · mkdirat/openat(.dat) ·
+   write(init) · … · write(status)* · write(final) · compaction · flock · unlinkat(sock) [listener close] · exit *)
 EXTENDS Integers, Sequences, FiniteSets, TLC
 
-CONSTANTS Agents, NSteps, AllowCrash, FixStatus
+CONSTANTS Agents, NSteps, AllowCrash, FixStatus, ExclusiveBind
 
 VARIABLES pc,        \* per agent
           listener,  \* agent whose listening socket is bound to the current socket inode, or "none"
@@ -21,10 +25,11 @@ VARIABLES pc,        \* per agent
           stepsDone, \* per agent
           execd,     \* per agent: has executed at least one step
           final,     \* per agent: final status written
+          lock,      \* holder of the address lock (flock), "none" if free
           windowRace,\* history: a starter probed while another was between probe and bind
           overlap    \* history: a step was executed while another starter that had executed steps was still alive
 
-vars == <<pc, listener, sockFile, bound, hist, order, stepsDone, execd, final, windowRace, overlap>>
+vars == <<pc, listener, sockFile, bound, hist, order, stepsDone, execd, final, lock, windowRace, overlap>>
 
 Init == /\ pc = [a \in Agents |-> "probe"]
         /\ listener = "none" /\ sockFile = "none"
@@ -32,62 +37,73 @@ Init == /\ pc = [a \in Agents |-> "probe"]
         /\ hist = [a \in Agents |-> "nofile"]
         /\ order = <<>>
         /\ stepsDone = [a \in Agents |-> 0] /\ execd = [a \in Agents |-> FALSE]
-        /\ final = [a \in Agents |-> FALSE] /\ windowRace = FALSE /\ overlap = FALSE
+        /\ final = [a \in Agents |-> FALSE] /\ lock = "none" /\ windowRace = FALSE /\ overlap = FALSE
 
 Reachable == sockFile # "none" /\ listener = sockFile /\ bound[sockFile]
 
 Probe(a) == /\ pc[a] = "probe"                       \* agent.go:113-116 checkIsAlreadyRunning
-            /\ pc' = [pc EXCEPT ![a] = IF Reachable THEN "refused" ELSE "openhist"]
-            /\ windowRace' = (windowRace \/ \E b \in Agents \ {a} : pc[b] \in {"openhist", "writeinit", "unlink", "bind"})
-            /\ UNCHANGED <<listener, sockFile, bound, hist, order, stepsDone, execd, final, overlap>>
+            /\ pc' = [pc EXCEPT ![a] = IF Reachable THEN "refused" ELSE IF ExclusiveBind THEN "lock" ELSE "openhist"]
+            /\ windowRace' = (windowRace \/ (~ExclusiveBind /\ \E b \in Agents \ {a} : pc[b] \in {"openhist", "writeinit", "unlink", "bind"}))
+            /\ UNCHANGED <<listener, sockFile, bound, hist, order, stepsDone, execd, final, overlap, lock>>
 OpenHist(a) == /\ pc[a] = "openhist"                 \* agent.go:121 setupDatabase -> jsondb.Open (creates empty file)
                /\ hist' = [hist EXCEPT ![a] = <<>>] /\ order' = Append(order, a)
                /\ pc' = [pc EXCEPT ![a] = "writeinit"]
-               /\ UNCHANGED <<listener, sockFile, bound, stepsDone, execd, final, windowRace, overlap>>
+               /\ UNCHANGED <<listener, sockFile, bound, stepsDone, execd, final, lock, windowRace, overlap>>
 WriteInit(a) == /\ pc[a] = "writeinit"               \* agent.go:130
                 /\ hist' = [hist EXCEPT ![a] = Append(@, "none")]
-                /\ pc' = [pc EXCEPT ![a] = "unlink"]
-                /\ UNCHANGED <<listener, sockFile, bound, order, stepsDone, execd, final, windowRace, overlap>>
+                /\ pc' = [pc EXCEPT ![a] = IF ExclusiveBind THEN "run" ELSE "unlink"]
+                /\ UNCHANGED <<listener, sockFile, bound, order, stepsDone, execd, final, lock, windowRace, overlap>>
 Unlink(a) == /\ pc[a] = "unlink"                     \* sock/server.go:49 os.Remove(addr)
              /\ sockFile' = "none"
              /\ pc' = [pc EXCEPT ![a] = "bind"]
-             /\ UNCHANGED <<listener, bound, hist, order, stepsDone, execd, final, windowRace, overlap>>
-Bind(a) == /\ pc[a] = "bind"                         \* sock/server.go:51 net.Listen
+             /\ UNCHANGED <<listener, bound, hist, order, stepsDone, execd, final, lock, windowRace, overlap>>
+Bind(a) == /\ pc[a] = "bind"                         \* sock/server.go net.Listen
            /\ IF sockFile = "none"
                 THEN /\ sockFile' = a /\ listener' = a /\ bound' = [bound EXCEPT ![a] = TRUE]
-                     /\ pc' = [pc EXCEPT ![a] = "run"]
+                     /\ pc' = [pc EXCEPT ![a] = IF ExclusiveBind THEN "openhist" ELSE "run"]
                 ELSE /\ pc' = [pc EXCEPT ![a] = "bindfail"]   \* EADDRINUSE -> errFailedSetupUnixSocket
-                     /\ UNCHANGED <<sockFile, listener, bound, windowRace>>
+                     /\ UNCHANGED <<sockFile, listener, bound>>
+           /\ lock' = IF lock = a THEN "none" ELSE lock      \* end of the critical section
            /\ UNCHANGED <<hist, order, stepsDone, execd, final, windowRace, overlap>>
+\* ExclusiveBind: the critical section of listenExclusive (flock, connect-probe, unlink, bind)
+Lock(a) == /\ pc[a] = "lock" /\ lock = "none"
+           /\ lock' = a /\ pc' = [pc EXCEPT ![a] = "dial"]
+           /\ UNCHANGED <<listener, sockFile, bound, hist, order, stepsDone, execd, final, windowRace, overlap>>
+Dial(a) == /\ pc[a] = "dial"
+           /\ IF Reachable THEN pc' = [pc EXCEPT ![a] = "bindfail"] /\ lock' = "none"     \* a live process serves the address
+                           ELSE pc' = [pc EXCEPT ![a] = "unlink"] /\ UNCHANGED lock
+           /\ UNCHANGED <<listener, sockFile, bound, hist, order, stepsDone, execd, final, windowRace, overlap>>
 \* status value persisted after a step finished (scheduler.Status + Agent.Status)
 Mid(a, k) == IF FixStatus THEN "running" ELSE "success"      \* Schedule has not returned yet when this line is written
 Step(a) == /\ pc[a] = "run" /\ stepsDone[a] < NSteps  \* one step executes and its status line is written
            /\ stepsDone' = [stepsDone EXCEPT ![a] = @ + 1] /\ execd' = [execd EXCEPT ![a] = TRUE]
            /\ hist' = [hist EXCEPT ![a] = Append(@, Mid(a, stepsDone[a] + 1))]
            /\ overlap' = (overlap \/ \E b \in Agents \ {a} : execd[b] /\ pc[b] \in {"run", "shutdown"})
-           /\ UNCHANGED <<pc, listener, sockFile, bound, order, final, windowRace>>
+           /\ UNCHANGED <<pc, listener, sockFile, bound, order, final, lock, windowRace>>
 RunningLine(a) == /\ pc[a] = "run" /\ stepsDone[a] < NSteps /\ Len(hist[a]) < NSteps + 3  \* waitForRunning write
                   /\ hist' = [hist EXCEPT ![a] = Append(@, "running")]
-                  /\ UNCHANGED <<pc, listener, sockFile, bound, order, stepsDone, execd, final, windowRace, overlap>>
+                  /\ UNCHANGED <<pc, listener, sockFile, bound, order, stepsDone, execd, final, lock, windowRace, overlap>>
 Final(a) == /\ pc[a] = "run" /\ stepsDone[a] = NSteps  \* agent.go:193-197
             /\ hist' = [hist EXCEPT ![a] = Append(@, "success")] /\ final' = [final EXCEPT ![a] = TRUE]
             /\ pc' = [pc EXCEPT ![a] = "shutdown"]
-            /\ UNCHANGED <<listener, sockFile, bound, order, stepsDone, execd, windowRace, overlap>>
-Shutdown(a) == /\ pc[a] \in {"shutdown", "bindfail"}   \* listener.Close unlinks *the path*, then os.Remove(addr)
+            /\ UNCHANGED <<listener, sockFile, bound, order, stepsDone, execd, lock, windowRace, overlap>>
+Shutdown(a) == /\ pc[a] \in {"shutdown", "bindfail"}
+               /\ (ExclusiveBind /\ pc[a] = "shutdown") => lock = "none"     \* the closing unlink takes the address lock   \* listener.Close unlinks *the path*, then os.Remove(addr)
                /\ IF bound[a] \/ pc[a] = "shutdown"
                     THEN /\ sockFile' = "none"
                          /\ listener' = IF listener = a THEN "none" ELSE listener
-                    ELSE UNCHANGED <<sockFile, listener, windowRace>>
+                    ELSE UNCHANGED <<sockFile, listener, lock, windowRace>>
                /\ bound' = [bound EXCEPT ![a] = FALSE]
                /\ pc' = [pc EXCEPT ![a] = "exit"]
-               /\ UNCHANGED <<hist, order, stepsDone, execd, final, windowRace, overlap>>
+               /\ UNCHANGED <<hist, order, stepsDone, execd, final, lock, windowRace, overlap>>
 Crash(a) == /\ AllowCrash /\ pc[a] \notin {"exit", "refused", "dead"}
             /\ pc' = [pc EXCEPT ![a] = "dead"]
             /\ bound' = [bound EXCEPT ![a] = FALSE]
             /\ listener' = IF listener = a THEN "none" ELSE listener
+            /\ lock' = IF lock = a THEN "none" ELSE lock            \* the kernel releases the flock of a dead process
             /\ UNCHANGED <<sockFile, hist, order, stepsDone, execd, final, windowRace, overlap>>
 
-Next == \E a \in Agents : Probe(a) \/ OpenHist(a) \/ WriteInit(a) \/ Unlink(a) \/ Bind(a) \/ Step(a)
+Next == \E a \in Agents : Probe(a) \/ Lock(a) \/ Dial(a) \/ OpenHist(a) \/ WriteInit(a) \/ Unlink(a) \/ Bind(a) \/ Step(a)
                           \/ RunningLine(a) \/ Final(a) \/ Shutdown(a) \/ Crash(a)
 Spec == Init /\ [][Next]_vars
 
@@ -98,7 +114,8 @@ C16_Mutex == \A a, b \in Agents : a # b => ~(execd[a] /\ execd[b] /\ Len(SelectS
                                               /\ \E i, j \in DOMAIN order : order[i] = a /\ order[j] = b)
 C16_Simple == Cardinality({a \in Agents : execd[a]}) <= 1
 C16_MutexUnlessWindowRace == ~windowRace => ~overlap
-C16_RefusedRecordsNothing == \A a \in Agents : pc[a] = "refused" => hist[a] = "nofile" /\ ~execd[a]
+C16_NoOverlap == ~overlap                         \* with ExclusiveBind: two starts never both execute steps, unconditionally
+C16_RefusedRecordsNothing == \A a \in Agents : (pc[a] = "refused" \/ (ExclusiveBind /\ pc[a] = "bindfail")) => hist[a] = "nofile" /\ ~execd[a]
 C16_Undisturbed == \A a \in Agents : pc[a] = "run" /\ bound[a] => Reachable /\ listener = a
 \* C08: what client.GetLatestStatus answers
 Newest == order[Len(order)]
